@@ -12,7 +12,6 @@ Inductive scomb :=
 | KFlatMap (g : gcode)
 | KFlatten
 | KUnzip
-| KUnzipF   (* after the close-once fix *)
 | KLazy (npend : nat) (ok : bool).
 
 (* per downstream: poll_ready, start_send, poll_flush, poll_close scripts *)
@@ -41,9 +40,8 @@ Definition srun_case (c : scomb) (fuel : nat) (items : list (list N)) (dn : list
   | KFilterMap q f => srun1 (sfilter_map K (fmopt q f)) d0 (fun s => [slg s]) (fun _ => 0) fuel (map it_n items)
   | KFlatMap g => srun1 (sflat_map K (gev g)) (None, d0) (fun s => [slg (snd s)]) (fun _ => 0) fuel (map it_n items)
   | KFlatten => srun1 (sflatten K) (None, d0) (fun s => [slg (snd s)]) (fun _ => 0) fuel items
-  | KUnzip => srun1 (sunzip K K) (d0, d1) (fun s => [slg (fst s); slg (snd s)]) (fun _ => 0) fuel (map it_pair items)
-  | KUnzipF => srun1 (sunzip_once K K) ((false, false), (d0, d1))
-                    (fun s => [slg (fst (snd s)); slg (snd (snd s))]) (fun _ => 0) fuel (map it_pair items)
+  | KUnzip => srun1 (sunzip K K) ((false, false), (d0, d1))
+                   (fun s => [slg (fst (snd s)); slg (snd (snd s))]) (fun _ => 0) fuel (map it_pair items)
   | KLazy n ok => srun1 (slazy K) (@LUninit N n ok, 0, d0) (fun s => [slg (snd s)]) (fun s => snd (fst s))
                         fuel (map it_n items)
   end.
@@ -55,11 +53,11 @@ Definition sref_items (c : scomb) (items : list (list N)) (i : nat) : list N :=
   | KFilterMap q f => filter_map_l (fmopt q f) (map it_n items)
   | KFlatMap g => flat_map (gev g) (map it_n items)
   | KFlatten => concat items
-  | KUnzip | KUnzipF => if Nat.eqb i 0 then map fst (map it_pair items) else map snd (map it_pair items)
+  | KUnzip => if Nat.eqb i 0 then map fst (map it_pair items) else map snd (map it_pair items)
   | KLazy _ _ => map it_n items
   end.
 
-Definition sn_down (c : scomb) : nat := match c with KUnzip | KUnzipF => 2 | _ => 1 end.
+Definition sn_down (c : scomb) : nat := match c with KUnzip => 2 | _ => 1 end.
 
 (* ------------------------------------------------------------------ comparison *)
 
